@@ -205,9 +205,9 @@ def gen_obj(rng: random.Random) -> Any:
     d: Dict[str, Any] = {}
     for k in FIELDS:
         r = rng.random()
-        if r < 0.12:
+        if r < 0.06:
             continue                                    # missing field: the expression errors on this document
-        if r < 0.2:                                     # wrong kind
+        if r < 0.1:                                     # wrong kind
             d[k] = rng.choice([None, "str", 1.5, [], {}, True, 7])
             continue
         if k in ("a", "b"):
@@ -225,7 +225,7 @@ def gen_obj(rng: random.Random) -> Any:
 
 def gen_doc(rng: random.Random) -> Any:
     r = rng.random()
-    if r < 0.82:
+    if r < 0.9:
         return gen_obj(rng)
     return rng.choice([[1, 2], [], 7, "text", None, True, 1.5, {}, [{"a": 1}], {"a": {"b": 2}}])
 
@@ -286,12 +286,13 @@ def gen_expr(rng: random.Random, pd: Optional[List[str]], want_bool: bool) -> st
 
 
 def gen_stream(rng: random.Random, n: int) -> str:
+    bad = rng.choice([0.0, 0.0, 0.0, 0.08, 0.15, 0.3])          # per-stream rate of non-JSON / blank lines
     lines = []
     for _ in range(n):
         r = rng.random()
-        if r < 0.74:
+        if r >= bad:
             lines.append(json.dumps(gen_doc(rng), separators=rng.choice([(",", ":"), (", ", ": ")])))
-        elif r < 0.9:
+        elif r < bad * 0.65:
             lines.append(rng.choice(MALFORMED))
         else:
             lines.append(rng.choice(BLANK))
@@ -363,7 +364,7 @@ class C20(Prop):
         cases.append({"kind": "usage", "mode": "j", "b": False, "expr": ".a", "args": [], "pd": [["p", "pk"], ["d", "doc"]], "stdin": "{}\n"})
         cases.append({"kind": "usage", "mode": "n", "b": False, "expr": None, "args": [], "stdin": ""})
         # NDJSON streams
-        n_streams = 260 if quick else 6000
+        n_streams = 900 if quick else 20000
         for i in range(n_streams):
             pd = rng.choice([None, None, None, ["p", "pk"], ["d", "doc"], ["d", "jq"], ["p", "jq"]])
             b = rng.random() < 0.5
@@ -374,7 +375,7 @@ class C20(Prop):
                 e = f"({e}) == ({e}) && v0 == v0" if rng.random() < 0.3 else e
             cases.append({"kind": "stream", "mode": "j", "b": b, "pd": pd, "expr": e, "args": args, "stdin": gen_stream(rng, n)})
         # slurp
-        for i in range(60 if quick else 1200):
+        for i in range(150 if quick else 3000):
             pd = rng.choice([None, None, ["p", "pk"], ["d", "doc"]])
             b = rng.random() < 0.5
             r = rng.random()
@@ -390,8 +391,8 @@ class C20(Prop):
         pool = [c for c in cases]
         rng.shuffle(pool)
         picked = []
-        for kind, k in (("null", 6), ("syntax", 3), ("arg", 4), ("badarg", 2), ("usage", 2), ("stream", 10), ("slurp", 3)):
-            picked += [c for c in pool if c["kind"] == kind][:k if quick else 4 * k]
+        for kind, k in (("null", 3), ("syntax", 1), ("arg", 1), ("badarg", 1), ("usage", 1), ("stream", 4), ("slurp", 1)):
+            picked += [c for c in pool if c["kind"] == kind][:k if quick else 8 * k]
         for c in picked:
             d = dict(c)
             d["sub"] = True
